@@ -87,6 +87,14 @@ def bigRem (x y : Int) : Option Int := if y = 0 then none else some (Int.tmod x 
 /-- `z.Exp(x, y, nil)`: `x**y`, and 1 when `y ≤ 0` -/
 def bigExp (x y : Int) : Int := if y ≤ 0 then 1 else x ^ y.toNat
 
+/-- `z.Exp(x, y, m)` with a modulus: `x**y mod |m|` for `y ≥ 0` (Euclidean, result in `[0, |m|)`); `m = 0` is the
+    same as `m == nil`.  For `y < 0` Go computes a modular inverse (or returns nil): outside this model, `none`. -/
+def bigExpMod (x y m : Int) : Option Int :=
+  if m = 0 then some (bigExp x y) else if y < 0 then none else some (x ^ y.toNat % (m.natAbs : Int))
+
+/-- `x.IsUint64()` -/
+def bigIsUint64 (x : Int) : Bool := decide (0 ≤ x ∧ x < 2 ^ 64)
+
 /-- `z.Lsh(x, n)` -/
 def bigLsh (x : Int) (n : Nat) : Int := x * 2 ^ n
 /-- `z.Rsh(x, n)`: arithmetic shift (rounds towards minus infinity) -/
